@@ -147,7 +147,10 @@ PROPS = {
     "C17": dict(
         test="TestC17", engine="B", level="exploration", components="symbols",
         quick_checks=20000, thorough_checks=150000, thorough_timeout=7200,
-        rule="a case = history of 2-12 operations from {Import(file), Lookup(name), LookupExtension(message, number)} over a fixed pool of 15 "
+        rule="a case = 0-5 generated descriptor files (packages from a pool of 8, colliding message/enum-value names, 0-3 extensions of "
+             "messages in three different packages with numbers from a pool of three, dependency chains; built with protodesc from generated "
+             "FileDescriptorProtos, so a file may even collide with its own dependency; optionally also compiled to a linker result with source) "
+             "+ history of 2-12 operations from {Import(file), Lookup(name), LookupExtension(message, number)} over them and a fixed pool of 19 "
              "small files x 2 representations (linker result with source, plain protodesc descriptor) that overlap in names, package-vs-"
              "symbol names and extension numbers on a shared extendee; after every Import the answers of Lookup/LookupExtension over the "
              "whole name universe and the success/failure of the import are compared with a flat-map model of the successfully imported "
